@@ -351,7 +351,31 @@ static void op_ed_gen(int argc, char **argv) {
 	ed_out(g, sys_t()); fprintf(OUT, " on=%d\n", ed_on_curve(g));
 }
 
+/* ed_nsim <alias> <P1> ... <Pn> : ed_norm_sim on n >= 1 points in any representation (alias 1: results over the operands; else into
+   destinations pre-filled with 7s); prints the results separated by ';' */
+#define EDNSIM_MAX 16
+static void op_ed_nsim(int argc, char **argv) {
+	if (argc < 3 || argc - 2 > EDNSIM_MAX) { fprintf(OUT, "bad-args\n"); return; }
+	int alias = parse_int(argv[1]), n = argc - 2, caught = 0;
+	ed_t a[EDNSIM_MAX], c[EDNSIM_MAX];
+	for (int i = 0; i < n; i++) {
+		ed_null(a[i]); ed_null(c[i]); ed_new(a[i]); ed_new(c[i]);
+		ed_tok(a[i], argv[2 + i]);
+		fp_set_dig(c[i]->x, 7); fp_set_dig(c[i]->y, 7); fp_set_dig(c[i]->z, 7); fp_set_dig(c[i]->t, 7); c[i]->coord = BASIC;
+	}
+	RLC_TRY { if (alias == 1) ed_norm_sim(a, (const ed_t *)a, n); else ed_norm_sim(c, (const ed_t *)a, n); } RLC_CATCH_ANY { caught = 1; }
+	if (take_err() || caught) fprintf(OUT, "err");
+	else for (int i = 0; i < n; i++) {
+		ed_st *r = alias == 1 ? a[i] : c[i];
+		if (i) fputc(';', OUT);
+		fp_print_std(r->x); fputc(',', OUT); fp_print_std(r->y);
+		if (fp_cmp_dig(r->z, 1) != RLC_EQ) fprintf(OUT, " Z!=1");
+	}
+	fputc('\n', OUT);
+}
+
 const op_t ops_ed[] = {
+	{"ed_nsim", op_ed_nsim},
 	{"ed_param", op_ed_param}, {"ed2", op_ed2}, {"ed1", op_ed1}, {"edm", op_edm}, {"edtab", op_edtab}, {"eds", op_eds}, {"edl", op_edl}, {"edla", op_edl},
 	{"ed_write_bin", op_ed_write_bin}, {"ed_read_bin", op_ed_read_bin}, {"ed_pck", op_ed_pck}, {"ed_upk", op_ed_upk},
 	{"ed_map", op_ed_map}, {"ed_map_dst", op_ed_map}, {"ed_gen", op_ed_gen},
